@@ -1132,8 +1132,10 @@ def explore_scenarios(scenarios, judge, budgets_of, want=48, max_execs=None):
             account(part, scn, ch, x)
             judge(part, scn, x)
 
+        # the cap is per scenario: a subtree gets its share
+        sub = None if max_execs is None else max(50, max_execs // want)
         n, capped = explore.explore(run, budgets_of(scn), on_exec,
-                                    max_execs=max_execs, roots=[prefix])
+                                    max_execs=sub, roots=[prefix])
         if capped:
             part['caps'].append(
                 f'scenario {scn["name"]}: subtree capped at {n} executions')
